@@ -783,7 +783,7 @@ class C15(Check):
 
 class C17(Check):
     pid = "C17"
-    lean_modules = []
+    lean_modules = ["MTProps.C17"]
 
     def body(self):
         rng = self.rng
